@@ -2,10 +2,11 @@ import Compute.Drv.Common
 import Compute.Model.Scalar
 import Compute.Model.Transforms
 import Compute.Model.Binom
+import Compute.Model.BinomAlt
 /-
 Driver for C17.  Requests
   logisticv <vec> | logit p | rt1 x (logistic then logit) | rt2 p (logit then logistic)
-  boxcox x lambda | boxcoxs x lambda alpha | softmax2 c <vec> (softmax x, softmax (x .+ c)) | binom n k
+  boxcox x lambda | boxcoxs x lambda alpha | softmax2 c <vec> (softmax x, softmax (x .+ c)) | binom n k | binomalt n k
 Replies: `= h`, `= p r`, `= <vec>`, `= c`, `! panic`.
 `binom`: the guard replies `= 0` (the source returns 0); overflow/underflow of a 64-bit operation
 replies `! panic` (the executor is built with overflow checks).
@@ -44,6 +45,11 @@ def c17Step (args : List String) : String :=
         | .guard => ok "0"
         | .overflow => panicked
         | .underflow => panicked
+  | "binomalt" :: rest => withArgs (do let n ← pNat; let k ← pNat; pure (n, k)) rest fun (n, k) =>
+      if n ≥ 2 ^ 64 ∨ k ≥ 2 ^ 64 then badOp
+      else match binomCoeffAlt Float n k with
+        | some c => ok (toString c)
+        | none => panicked
   | _ => badOp
 
 def main (args : List String) : IO UInt32 := mainWith () (fun _ t => ((), c17Step t)) args
